@@ -16,7 +16,7 @@ import time
 from collections import Counter
 from pathlib import Path
 
-from . import common, drv, drv_sweep as sw, tables
+from . import common, drv, drv_sweep as sw, rn, tables
 
 PID = "C03"
 
@@ -164,6 +164,33 @@ def check(run: common.Run):
                            "now_fix_wrapped_or_gone": sorted(drv.DIRECT_EDIT_STAGES - other)},
                 "explanation": "the hypothesis list of T03_3_format_code_valid_partial changed"})
 
+    # (f) processing.remove_nodes: character loop vs RemoveNodesModel (T03.4) + ast.parse oracle
+    rcases = [c for c in rn.cases() if rn.valid(c[1])]
+    if run.tier == "quick":
+        rcases = rcases[run.seed % 3::3]
+    ritems = []
+    for (name, src, stmts, rem) in rcases:
+        o = rn.observe(mods, src, stmts, rem)
+        if o is None:
+            continue
+        ritems.append((name, src, stmts, rem, o))
+        hist[f"remove_nodes:{name}"] += 1
+        if o["error"]:
+            failing_inputs.append({"kind": "property-oracle", "what": "processing.remove_nodes raised " + o["error"],
+                                   "case": {"source": src, "removed": [stmts[i] for i in rem]}})
+        elif not rn.valid(o["out"]):
+            failing_inputs.append({"kind": "property-oracle", "what": "processing.remove_nodes: valid input became invalid output",
+                                   "case": {"source": src, "removed": [stmts[i] for i in rem], "output": o["out"]}})
+    rn_coq = [rn.to_coq(src, o) for (_, src, _, _, o) in ritems]
+    bad, errs = drv.run_simple_cases(wd, "rn", "rn_case", "(fun c => rn_case_ok c && rn_guards_ok c)", rn_coq, shard=250,
+                                     extra_import="Require Import Pyrefact.RemoveNodesModel.\n")
+    disagreements += errs
+    for i in bad:
+        name, src, stmts, rem, o = ritems[i]
+        disagreements.append({"kind": "correspondence", "kernel": "K1 RemoveNodesModel (char loop of remove_nodes / structural guards)",
+                              "case": {"template": name, "source": src, "removed": [stmts[j] for j in rem],
+                                       "passes": o["passes"], "impl_output": o["out"]}})
+
     # (e) the real pattern-substitution entry points
     for b in sub_oracle(mods, wd):
         failing_inputs.append({"kind": "property-oracle", "what": "valid input became invalid output", "case": b})
@@ -260,17 +287,20 @@ def check(run: common.Run):
                        "explanation": "a property theorem no longer checks"}, have_input)
 
     run.coverage.update(
-        evaluations=len(gitems) + len(rows) + fc["evaluations"] + len(SUB_CASES) * 3,
+        evaluations=len(gitems) + len(rows) + fc["evaluations"] + len(SUB_CASES) * 3 + len(ritems),
         distinct_nontrivial=n_guard_nontrivial + fc["distinct"]
-        + len({(r["changed"], r["valid_new"], r["valid_old"]) for r in rows}),
+        + len({(r["changed"], r["valid_new"], r["valid_old"]) for r in rows})
+        + len({(src, rem) for (_, src, _, rem, o) in ritems if o["passes"]}),
         rule=("correspondence cases: (a) processing.fix(max_iter=1 | default) and chain driven by a scripted "
               "whole-text rule over 3 texts: ALL candidate tables 3->3 x ALL validity masks x 4 restoration "
               "behaviours x 3 starts (exhaustive); (b) format_file on temp files: all 8 rows of the decision table "
               "x {m.py, __init__.py}, bytes + mtime_ns observed; (c) format_code with every stage replaced by a "
               "table lookup over a 4-text universe: all f:4->4 on one _multi_run_fixes stage x start x safe x "
               "keep_imports x {module, indented fragment} (quick: 1/4 shard rotating with the seed), budget chains, "
-              "seeded random scripts up to 58 texts. Non-trivial = a rollback really happened (a) / >= 2 passes of "
-              "the multi-run phase with a distinct (trace, result) (c) / every row of (b)."),
+              "seeded random scripts up to 58 texts; (f) processing.remove_nodes on 8 statement templates x statements of 1..5 "
+              "characters x every non-empty subset of removed statements (quick: 1/3 shard rotating with the seed): output "
+              "text = RemoveNodesModel, structural guards of T03.4 hold, output parses. Non-trivial = a rollback really happened (a) / >= 2 passes of "
+              "the multi-run phase with a distinct (trace, result) (c) / every row of (b) / a body was emptied (f)."),
         samples=[gitems[5], gitems[len(gitems) // 2], rows[3]] + fc["samples"][:2],
         exhaustive=run.tier != "quick",
         exhaustive_parts={"guard_cases": True, "format_file_rows": True, "format_code_f4x4": run.tier != "quick"},
@@ -282,7 +312,8 @@ def check(run: common.Run):
         stages_covered_by_T03_1=sorted(n for n, k in kinds.items() if k == "fix"),
         unmodelled=["stages WITHOUT rollback, validity preservation is an explicit hypothesis of "
                     "T03_3_format_code_valid_partial (modelled, not verified): " + ", ".join(sorted(other)),
-                    "processing.remove_nodes / _insert_nodes / alter_code text edits (T03.4 of the design not built)",
+                    "processing._insert_nodes / alter_code text edits; the first half of remove_nodes (which characters "
+                    "are removed, which bodies are emptied) is recomputed by the harness, only the character loop is modelled",
                     "_do_rewrite's pass/indent candidates (any candidate function is covered by T03.1)"],
         trusted_base=common.TRUSTED_BASE_COMMON + [
             "scripted stage fakes + TStr (str subclass scripting expandtabs/strip) of harness/drv.py",
@@ -301,7 +332,8 @@ def replay(path: str) -> int:
     wd = common.workdir(PID + "-replay")
     print(json.dumps({k: data[k] for k in data if k in ("kind", "explanation", "kernel", "what", "site")}, indent=1))
     kind = data.get("kind")
-    if kind == "sweep" or (kind == "property-oracle" and "source" in data.get("case", {}) and "pattern" not in data["case"]):
+    if kind == "sweep" or (kind == "property-oracle" and "source" in data.get("case", {}) and "pattern" not in data["case"]
+                           and "removed" not in data["case"] and "cand" not in data["case"]):
         src = data.get("source") or data["case"]["source"]
         opts = data.get("options") or sw.OPTION_COMBOS[0]
         with common.quiet():
@@ -311,6 +343,20 @@ def replay(path: str) -> int:
         print("output      :", repr(out))
         print("output valid:", is_valid(out))
         print("first bad stage:", sw.first_bad_stage(mods, src, opts, is_valid))
+    elif "removed" in data.get("case", {}):
+        c = data["case"]
+        core, processing = mods["core"], mods["processing"]
+        root = core.parse(c["source"])
+        todo = list(c["removed"])
+        nodes = []
+        for n in sorted((n for n in ast.walk(root) if isinstance(n, ast.stmt) and not hasattr(n, "body")),
+                        key=lambda n: (n.lineno, n.col_offset)):
+            if todo and ast.get_source_segment(c["source"], n) == todo[0]:
+                nodes.append(n)
+                todo.pop(0)
+        with common.quiet():
+            out = processing.remove_nodes(c["source"], nodes, root)
+        print("remove_nodes output:", repr(out), "valid:", is_valid(out))
     elif kind == "property-oracle" and "pattern" in data.get("case", {}):
         c = data["case"]
         pm = __import__("pyrefact.pattern_matching", fromlist=["x"])
